@@ -87,6 +87,8 @@ pub enum Strat {
     ByName,
     SetDep,
     Random(u64),
+    /// packages in alphabetical order of their names; newest version
+    Alphabetical,
     /// package `x` (the first layer of a layered registry) first, then the packages named `f_…`, then
     /// fewest versions first; newest version: a conflict in the deeper layers backjumps over all fillers
     FillersFirst,
@@ -101,6 +103,7 @@ impl Strat {
             Strat::SetDep => "setdep".into(),
             Strat::Random(s) => format!("random:{}", s),
             Strat::FillersFirst => "fillers_first".into(),
+            Strat::Alphabetical => "alphabetical".into(),
         }
     }
     pub fn from_text(s: &str) -> Self {
@@ -111,6 +114,7 @@ impl Strat {
             "byname" => Strat::ByName,
             "setdep" => Strat::SetDep,
             "fillers_first" => Strat::FillersFirst,
+            "alphabetical" => Strat::Alphabetical,
             _ => Strat::Random(s.strip_prefix("random:").expect("strategy").parse().unwrap()),
         }
     }
@@ -231,6 +235,14 @@ impl<VS: HSet> DependencyProvider for HProvider<VS> {
             Strat::ByName => p.bytes().map(|b| b as u64).sum::<u64>() % 7,
             Strat::SetDep => (set.to_machine().len() as u64 * 7 + n) % 5,
             Strat::Random(_) => self.rng.borrow_mut().below(3),
+            Strat::Alphabetical => {
+                // the first 8 bytes of the name as a big-endian number, inverted: earlier names first
+                let mut k = [0u8; 8];
+                for (i, b) in p.bytes().take(8).enumerate() {
+                    k[i] = b;
+                }
+                u64::MAX - u64::from_be_bytes(k)
+            }
             Strat::FillersFirst => if p == "x" { 3_000_000 } else if p.starts_with("f_") { 2_000_000 } else { 1_000_000 - n },
         };
         self.log.borrow_mut().push(Ev::Prio { p: p.clone(), set_disp: set.to_string(), set_m: set.to_machine(), prio });
@@ -248,7 +260,7 @@ impl<VS: HSet> DependencyProvider for HProvider<VS> {
             }
             let m = self.matching(p, set);
             match self.strat {
-                Strat::NewestFewest | Strat::Const | Strat::SetDep | Strat::FillersFirst => m.last().copied(),
+                Strat::NewestFewest | Strat::Const | Strat::SetDep | Strat::FillersFirst | Strat::Alphabetical => m.last().copied(),
                 Strat::OldestFewest | Strat::ByName => m.first().copied(),
                 Strat::Random(_) => {
                     if m.is_empty() {
@@ -518,6 +530,84 @@ pub fn is_solution<VS: HSet>(reg: &Registry<VS>, root: &str, rv: u32, sel: &Sel)
         }
     }
     Ok(())
+}
+
+/// A solution found by depth-first search with propagation of the dependency constraints (for
+/// registries too large for the enumeration of all selections): `Some(Some(sel))` a solution,
+/// `Some(None)` there is none, `None` gave up after `cap` search nodes.
+pub fn search_solution<VS: HSet>(reg: &Registry<VS>, root: &str, rv: u32, cap: usize) -> Option<Option<Sel>> {
+    fn deps_of<VS: HSet>(reg: &Registry<VS>, p: &str, v: u32) -> Option<BTreeMap<String, VS>> {
+        match reg.entries.get(&(p.to_string(), v)) {
+            Some(Ok(ds)) => {
+                let mut m = BTreeMap::new();
+                for (q, s) in ds {
+                    m.insert(q.clone(), VS::from_machine(&s.to_machine())); // duplicates: last wins
+                }
+                Some(m)
+            }
+            _ => None,
+        }
+    }
+    fn go<VS: HSet>(reg: &Registry<VS>, sel: &mut Sel, nodes: &mut usize, cap: usize) -> Option<bool> {
+        *nodes += 1;
+        if *nodes > cap {
+            return None;
+        }
+        // constraints on every package from the selected versions
+        let mut need: BTreeMap<String, Vec<VS>> = BTreeMap::new();
+        for (p, v) in sel.iter() {
+            for (q, s) in deps_of(reg, p, *v)? {
+                need.entry(q).or_default().push(s);
+            }
+        }
+        for (q, sets) in &need {
+            if let Some(w) = sel.get(q) {
+                if sets.iter().any(|s| !s.contains(w)) {
+                    return Some(false);
+                }
+            }
+        }
+        // an unselected required package: branch on its versions (fewest candidates first)
+        let mut best: Option<(String, Vec<u32>)> = None;
+        for (q, sets) in &need {
+            if sel.contains_key(q) {
+                continue;
+            }
+            let cands: Vec<u32> = reg.versions(q).into_iter().filter(|w| sets.iter().all(|s| s.contains(w)) && deps_of(reg, q, *w).is_some()).collect();
+            if cands.is_empty() {
+                return Some(false);
+            }
+            if best.as_ref().map_or(true, |(_, c)| cands.len() < c.len()) {
+                best = Some((q.clone(), cands));
+            }
+        }
+        match best {
+            None => Some(true),
+            Some((q, cands)) => {
+                for w in cands.into_iter().rev() {
+                    sel.insert(q.clone(), w);
+                    match go(reg, sel, nodes, cap) {
+                        None => return None,
+                        Some(true) => return Some(true),
+                        Some(false) => {}
+                    }
+                    sel.remove(&q);
+                }
+                Some(false)
+            }
+        }
+    }
+    if deps_of(reg, root, rv).is_none() {
+        return Some(None);
+    }
+    let mut sel: Sel = BTreeMap::new();
+    sel.insert(root.to_string(), rv);
+    let mut nodes = 0usize;
+    match go(reg, &mut sel, &mut nodes, cap) {
+        None => None,
+        Some(true) => Some(Some(sel)),
+        Some(false) => Some(None),
+    }
 }
 
 pub fn reachable<VS: HSet>(reg: &Registry<VS>, root: &str, sel: &Sel) -> BTreeSet<String> {
@@ -864,6 +954,20 @@ pub fn eval_solve<VS: HSet>(r: &SolveReq<VS>) -> SolveEval<VS> {
             if let Some(s) = solutions.first().filter(|_| brute) {
                 failures.push(("C02", format!("NoSolution reported but {:?} is a solution", s)));
             }
+            if !brute {
+                // too large for the enumeration: a bounded depth-first search for a solution
+                match search_solution(&r.reg, &r.root, r.rv, 200_000) {
+                    Some(Some(s)) => {
+                        tags.push("nosolution_checked_by_search");
+                        match is_solution(&r.reg, &r.root, r.rv, &s) {
+                            Ok(()) => failures.push(("C02", format!("NoSolution reported but {:?} is a solution", s))),
+                            Err(_) => tags.push("search_oracle_inconsistent"),
+                        }
+                    }
+                    Some(None) => tags.push("nosolution_checked_by_search"),
+                    None => tags.push("nosolution_search_gave_up"),
+                }
+            }
             // C03: the tree is a checkable proof (independent semantic check against the registry)
             for e in crate::treeck::check_tree(&r.reg, &r.root, r.rv, tree, false) {
                 failures.push(("C03", e));
@@ -1005,6 +1109,33 @@ pub fn random_registry<VS: HSet>(rng: &mut Rng, versions: &[u32]) -> Registry<VS
             }
             entries.insert((p.to_string(), v), Ok(ds));
         }
+    }
+    Registry { entries }
+}
+
+/// wide registries: a hub `c_f` depending on `n` leaves `h_i`, each excluding one version of a common
+/// package `z_t`, and a package `b_g`, decided before the hub, that excludes the only version of `z_t` the
+/// leaves leave over.  With the packages decided in alphabetical order the first conflict is met late;
+/// after the backjump the learned dependencies of all `h_i` fire at the hub's decision level and conflict
+/// resolution unifies on `z_t` `n` times while the clause grows by one leaf per step: incompatibilities
+/// with dozens of terms (a threshold on the number of terms shows).  `solvable`: `b_g` has an older version
+/// without the constraint.
+pub fn wide_registry<VS: HSet>(n: u32, solvable: bool) -> Registry<VS> {
+    let set = |m: &str| VS::from_machine(m);
+    let mut entries = BTreeMap::new();
+    entries.insert(("a_root".to_string(), 1), Ok(vec![("b_g".to_string(), set("u:u")), ("c_f".to_string(), set("u:u")), ("z_t".to_string(), set("u:u"))]));
+    if solvable {
+        entries.insert(("b_g".to_string(), 1), Ok(vec![]));
+    }
+    entries.insert(("b_g".to_string(), 2), Ok(vec![("z_t".to_string(), set(&format!("u:e{}", n)))]));
+    entries.insert(("c_f".to_string(), 1), Ok((0..n).map(|i| (format!("h_{:02}", i), set("i1:i1"))).collect()));
+    for i in 0..n {
+        // z_t != i
+        let m = if i == 0 { "e0:u".to_string() } else { format!("u:e{} e{}:u", i, i) };
+        entries.insert((format!("h_{:02}", i), 1), Ok(vec![("z_t".to_string(), set(&m))]));
+    }
+    for v in 0..=n {
+        entries.insert(("z_t".to_string(), v), Ok(vec![]));
     }
     Registry { entries }
 }
